@@ -4,6 +4,10 @@ import json, subprocess
 
 # id -> (technique, level text, level note, design ref)
 CHECKS = {
+ "C18": ("differential twins: the same program written with custom functions calling the Runtime/Arguments API and with template syntax must render identically (output, errors, block rendering log)",
+         "Exploration: random programs whose operations are emitted twice (Let/Set/SetOrLet/LetGlobal/Resolve/Context/YieldBlock from jet.Funcs versus :=, =, identifiers, '.', yield) nested in if, range, block definitions, includes and try; LetGlobal'd names are read right after the call, after the enclosing constructs ended and at the end; call shapes (plain, piped, slot at every index) given to a reflected function and to jet.Funcs reading Get, NumOfArguments, IsSet and ParseInto.",
+         "Let twins only where the enclosing list already opened a scope; block bodies use names of their own (dynamic block scoping is a design choice outside the statement); YieldBlock on parameterless blocks.",
+         "DESIGN.md 3/C18"),
  "C14": ("metamorphic monitor with recorded call log: every surface form of a call intent must render and call exactly like the plain call; built-ins compared differentially with the Go functions they expose",
          "Exploration: call intents over reflected fixed-arity and variadic funcs, value/pointer methods and a jet.Func, with arguments needing conversion, printed in parenthesised, prefix, piped and slot forms (slot at every position incl. the variadic tail); pipelines of 2-4 stages against nested plain calls; 26 directed error cases; differential runs of every documented built-in against the Go function.",
          "Trusts the recorded call log (arguments as received by the Go callables). Non-integral numeric arguments to int parameters are not generated.",
